@@ -28,6 +28,15 @@ Proof.
   destruct b; cbn [parl paren]; [|reflexivity].
   rewrite flatten_cons, flatten_app, flatten_cons, flatten_nil. cbn [tok_text]. rewrite sapp_nil_r. reflexivity.
 Qed.
+Lemma flatten_gparl b l : flatten (gparl b l) = paren b (flatten l).
+Proof.
+  destruct b; cbn [gparl paren]; [|reflexivity].
+  rewrite flatten_cons, flatten_app, flatten_cons, flatten_nil. cbn [tok_text]. rewrite sapp_nil_r. reflexivity.
+Qed.
+Lemma flatten_wrap2 a b l : flatten (wrap2 a b l) = paren (a || b) (flatten l).
+Proof. destruct a; cbn [wrap2 orb]; [apply (flatten_parl true)|apply flatten_gparl]. Qed.
+Lemma flatten_opndl sl t l : flatten (opndl sl t l) = opnd sl t (flatten l).
+Proof. apply flatten_parl. Qed.
 Lemma alias_sql_toks c qc s alias : alias_sql c qc s alias = (s ++ flatten (alias_toks c qc alias))%string.
 Proof.
   unfold alias_sql, fmt_alias, alias_toks. destruct alias; [|rewrite flatten_nil, sapp_nil_r; reflexivity].
@@ -51,6 +60,12 @@ Lemma no_auto_cons t r : no_auto (t :: r) = negb (is_auto t) && no_auto r.
 Proof. reflexivity. Qed.
 Lemma no_auto_parl b l : no_auto (parl b l) = no_auto l.
 Proof. destruct b; cbn [parl]; [|reflexivity]. rewrite no_auto_cons, no_auto_app. cbn. rewrite andb_true_r. reflexivity. Qed.
+Lemma no_auto_gparl b l : no_auto (gparl b l) = no_auto l.
+Proof. destruct b; cbn [gparl]; [|reflexivity]. rewrite no_auto_cons, no_auto_app. cbn. rewrite andb_true_r. reflexivity. Qed.
+Lemma no_auto_wrap2 a b l : no_auto (wrap2 a b l) = no_auto l.
+Proof. destruct a; cbn [wrap2]; [apply (no_auto_parl true)|apply no_auto_gparl]. Qed.
+Lemma no_auto_opndl sl t l : no_auto (opndl sl t l) = no_auto l.
+Proof. apply no_auto_parl. Qed.
 Lemma no_auto_alias_toks c qc alias : no_auto (alias_toks c qc alias) = true.
 Proof. destruct alias; reflexivity. Qed.
 Lemma no_auto_aliased b c qc l alias : no_auto (aliased b c qc l alias) = no_auto l.
@@ -101,9 +116,9 @@ Proof.
   - rewrite no_auto_cons, no_auto_alias_toks. reflexivity.
 Qed.
 
-Ltac flat := repeat (rewrite ?flatten_aliased, ?flatten_app, ?flatten_cons, ?flatten_parl, ?flatten_nil, ?flatten_jointoks;
+Ltac flat := repeat (rewrite ?flatten_aliased, ?flatten_app, ?flatten_cons, ?flatten_opndl, ?flatten_wrap2, ?flatten_parl, ?flatten_nil, ?flatten_jointoks;
                      cbn [tok_text]).
-Ltac noauto := repeat (rewrite ?no_auto_aliased, ?no_auto_app, ?no_auto_cons, ?no_auto_parl; cbn [is_auto negb andb]);
+Ltac noauto := repeat (rewrite ?no_auto_aliased, ?no_auto_app, ?no_auto_cons, ?no_auto_opndl, ?no_auto_wrap2, ?no_auto_parl; cbn [is_auto negb andb]);
                repeat match goal with H : no_auto _ = true |- _ => rewrite H end;
                repeat match goal with H : forallb no_auto _ = true |- _ => rewrite (no_auto_jointoks _ _ H) end;
                try reflexivity.
@@ -123,7 +138,7 @@ Proof.
   - (* TLit *) intros. apply opaque_rel.
   - (* TParam *) intros. cbn [render_t render]. apply relG_ret; [apply sapp_nil_r|reflexivity].
   - (* TNeg *) intros t IH isf c st. cbn [render_t render]. step IH. fin.
-  - (* TArith *) intros op l IHl r IHr alias isf c st. cbn [render_t render]. step IHl. step IHr. fin.
+  - (* TArith *) intros op l IHl r IHr alias isf c st. cbn [render_t render]. unfold arith_left_first. step IHl. step IHr. fin.
     all: try (destruct (wa c); rewrite ?sapp_assoc; reflexivity).
   - (* TBasic *) intros cm l IHl r IHr alias isf c st. cbn [render_t render]. step IHl. step IHr. fin.
     all: try (destruct (wa c); rewrite ?sapp_assoc; reflexivity).
